@@ -118,6 +118,7 @@ func (f *FakeTicker) Chan() <-chan time.Time {
 }
 func (f *FakeTicker) Stop() {}
 func (f *FakeTicker) Done() {
+	f.w.S.Gate("poll-done")
 	f.mu.Lock()
 	f.Dones++
 	f.mu.Unlock()
@@ -211,6 +212,9 @@ func (w *World) Ctx(d time.Duration) (context.Context, context.CancelFunc) {
 	w.cancels = append(w.cancels, cancel)
 	return ctx, cancel
 }
+
+// Gate: see kernel.Sim.Gate.
+func (w *World) Gate() { w.S.Gate("return") }
 
 // Spawn starts a named task (runs until its first park).
 func (w *World) Spawn(kind string, fn func(t *kernel.Task)) {
@@ -321,6 +325,7 @@ func (w *World) InFlight() int { w.trMu.Lock(); defer w.trMu.Unlock(); return w.
 // Finish tears the world down: the service fails everything, contexts are
 // cancelled, the store is closed, every parked goroutine is drained.
 func (w *World) Finish() {
+	w.S.Closing()
 	w.S.SetFree(true)
 	w.Svc.Kill()
 	for _, c := range w.cancels {
@@ -333,7 +338,7 @@ func (w *World) Finish() {
 		w.S.Drain()
 	}
 	if w.running.Load() > 0 {
-		w.S.Fail(w.Prop+".stuck", fmt.Sprintf("%d task(s) never returned although the service fails every request and every context is cancelled", w.running.Load()))
+		w.S.FailLate(w.Prop+".stuck", fmt.Sprintf("%d task(s) never returned although the service fails every request and every context is cancelled", w.running.Load()))
 	}
 	if w.Store != nil {
 		done := make(chan struct{})
@@ -341,7 +346,7 @@ func (w *World) Finish() {
 		select {
 		case <-done:
 		case <-time.After(time.Hour):
-			w.S.Fail(w.Prop+".harness", "Store.Close did not return within an hour of virtual time at teardown")
+			w.S.FailLate(w.Prop+".harness", "Store.Close did not return within an hour of virtual time at teardown")
 		}
 	}
 	w.S.Drain()
